@@ -32,6 +32,21 @@ Part T  transmissions.  One *scenario* = channel configuration + a history of
           dtype  complex64 / float / int signals x C / Fortran / strided / negative-stride /
                  time-major / read-only memory layouts (and lists)
           sizes  signal lengths and fft sizes around powers of two, 1023..1025, 4097
+          multi  two live objects used alternately (separate / same profile object / second on a
+                 get_similar_fading_generator() generator): each behaves like a lone object and
+                 no operation on one changes the state digest of the other
+          long   8 transmissions with an event (incl. invalid calls) after each
+        Invalid calls ("bad_call" events in events/long: wrong number of streams / users, 1-D for
+        MIMO, 2-D for SISO, length not a multiple of the block, carrier index out of range, path
+        loss of the wrong shape / out of [0,1], non-bool direction; Part E for constructors and
+        accessors) are OUTSIDE the property: whether they raise and whether they advance the
+        fading / consume RNG draws / replace the stored response / apply part of a path-loss
+        matrix is recorded as an outcome only.  Required is that the object stays a coherent
+        channel: the reference model is re-synchronised from the object's own state (fading
+        position, direction, per-link path loss) and every later VALID transmission must satisfy
+        all relations; a failure there is signed after_invalid_call|<what>|....
+        Falsy-but-valid arguments: path loss 0 / 0.0 / int 0 / int 1, Fd 0, a zero-power
+        (-inf dB) tap, single-sample signals, fft_size 1..3, direction toggled back and forth.
         Argument aliasing is exercised in EVERY scenario: signal / selection / profile /
         path-loss arrays must be bit-identical after each call; the caller re-uses ONE
         array object per shape for consecutive signals and selections (in-place new
@@ -218,9 +233,9 @@ def check_discretization(case, chk):
     # a discretized profile must refuse a second discretization
     try:
         disc.get_discretize_profile(Ts)
-        chk.fail(("discretize", "rediscretize_accepted"), case)
+        chk.outcome("invalid_call_behaviour", ("rediscretize", "accepted", "-"))
     except RuntimeError:
-        pass
+        chk.outcome("invalid_call_behaviour", ("rediscretize", "RuntimeError", "-"))
     chk.outcome("delay_sets", tuple(keys))
     chk.outcome("merge_patterns", (k, len(keys)))
     if any(q % 4 == 2 for q in qs):          # q/4 = x.5: a round-half-even tie
@@ -388,18 +403,39 @@ class Sut:
             for j in range(self.N[1]):
                 self.pl[(i, j)] = None
         self.results = []                         # (X, outputs) of the transmissions so far
+        self.after_invalid = None                 # kind of the last invalid call made on this object
         self.jk = {}                              # (i,j) -> (phi, psi, t0) read back from the generator
         self.read_back_phases(first=True)
 
-    def read_back_phases(self, first=False):
+    def read_back_phases(self, first=False, resync=False):
         """Jakes phases of every link (they are redrawn when the antenna shape changes); the start
-        time is read only once"""
+        time is read only once - except after an invalid call (resync), when the position of every
+        link's fading process is re-read so that the model's sample counter continues from there"""
         if not self.jakes:
             return
         for (i, j) in self.pl:
             gobj = self._generator(i, j)
-            t0 = float(gobj._current_time) if first else self.jk[(i, j)][2]
+            if first:
+                t0 = float(gobj._current_time)
+            elif resync:
+                t0 = float(gobj._current_time) - self.counter * self.Ts
+            else:
+                t0 = self.jk[(i, j)][2]
             self.jk[(i, j)] = (np.array(gobj._phi_l, dtype=float), np.array(gobj._psi_l, dtype=float), t0)
+
+    def resync_after_invalid_call(self):
+        """an invalid call may or may not have advanced the fading, replaced the stored response or
+        applied part of a path-loss matrix: continue from the state the object itself now holds"""
+        self.read_back_phases(resync=True)
+        self.switched = bool(self.ch.switched_direction)
+        for (i, j) in self.pl:
+            if self.family == "su":
+                self.pl[(i, j)] = self.ch._pathloss_value
+            elif self.family == "mu":
+                self.pl[(i, j)] = self.ch._su_siso_channels[i, j]._pathloss_value
+            if self.pl[(i, j)] is not None:
+                self.pl[(i, j)] = float(self.pl[(i, j)])
+        self.retained = []
 
     @property
     def counter(self):
@@ -409,7 +445,7 @@ class Sut:
     def counter(self, v):
         self._cnt[0] = v
 
-    def digest(self):
+    def digest(self, rng=True):
         """everything a later transmission depends on, as bytes (seam read-back): fading time and
         phases of every link, the stored last response, direction, path loss, the global numpy RNG"""
         import hashlib
@@ -439,8 +475,9 @@ class Sut:
         if self.family == "mu":
             pm = self.ch._pathloss_matrix
             add(None if pm is None else np.asarray(pm))
-        st = np.random.get_state()
-        add(st[1]); add(st[2:])
+        if rng:
+            st = np.random.get_state()
+            add(st[1]); add(st[2:])
         return h.hexdigest()
 
     def _tdl(self, i, j):
@@ -946,8 +983,22 @@ def transmit(sut, step, chk, case, results):
 # ----------------------------------------------------------------------
 # scenario execution
 # ----------------------------------------------------------------------
-def run_scenario(case, chk):
+class AfterInvalid:
+    """a Check whose failures are signed after_invalid_call|<what>|..."""
+
+    def __init__(self, chk, what):
+        self._chk, self._what = chk, what
+
+    def __getattr__(self, name):
+        return getattr(self._chk, name)
+
+    def fail(self, sig, case, **kw):
+        self._chk.fail(("after_invalid_call", self._what) + tuple(sig), case, **kw)
+
+
+def run_scenario(case, chk0):
     """build the channel, run the history, compare every transmission"""
+    chk = chk0
     chk.count("scenarios")
     sut = Sut(case)
     suts = [sut]
@@ -974,16 +1025,31 @@ def run_scenario(case, chk):
     if not sut.profile_args_intact:
         chk.fail(("constructor", sut.family, "profile_arrays_mutated"), case)
     kinds = []
+    others_before = None
     for step in case["history"]:
         op = step["op"]
         kinds.append(op)
         sut = suts[int(step.get("obj", 0))]
         results = sut.results
+        chk = chk0 if sut.after_invalid is None else AfterInvalid(chk0, sut.after_invalid)
+        # whatever is done to one object leaves every other live object exactly as it was
+        if len(suts) > 1:
+            if others_before is not None:
+                for o, d in others_before:
+                    if o.digest(rng=False) != d:
+                        chk.fail(("several_objects", case.get("objects"), "other_object_changed_by", kinds[-2]), case)
+            others_before = [(o, o.digest(rng=False)) for o in suts if o is not sut]
         if op in ("time", "freq"):
             if step.get("x", [None])[0] == "lincomb":
                 (X1, _), (X2, _) = results[-2], results[-1]
                 step = dict(step, _X=LIN_A * X1 + LIN_B * X2)
-            if not transmit(sut, step, chk, case, results):
+            if sut.after_invalid is not None:
+                ok = False          # an exception of a VALID transmission after an invalid call is a violation
+                with chk0.guard(("after_invalid_call", sut.after_invalid, "valid_transmission"), case):
+                    ok = transmit(sut, step, chk, case, results)
+            else:
+                ok = transmit(sut, step, chk, case, results)
+            if not ok:
                 chk.count("scenarios_cut_short_by_a_reported_defect")
                 break
             if step.get("x", [None])[0] == "lincomb":
@@ -1028,10 +1094,8 @@ def run_scenario(case, chk):
                 sut.ch.set_pathloss(val)
                 sut.pl[(0, 0)] = val
         elif op == "bad_call":
-            chk.count("eval_error_paths")
-            if not bad_call(sut, step["what"], chk, case):
-                chk.count("scenarios_cut_short_by_a_reported_defect")
-                break
+            if bad_call(sut, step["what"], chk0, case):
+                chk0.count("eval_error_paths")
         elif op == "switch":
             chk.count("eval_events")
             sut.ch.switched_direction = bool(step["value"])
@@ -1114,10 +1178,14 @@ def bad_call_applicable(what, family, mimo, N, ant, switched):
 
 
 def bad_call(sut, what, chk, case):
-    """an invalid call must raise and leave the channel exactly as it was.  -> False when it does not"""
+    """An invalid call is outside the property: whether it raises and what it does to the fading time,
+    the RNG or the stored response is recorded as an OUTCOME.  Required is only that the object stays
+    a coherent channel: the reference model is re-synchronised from the object's own state and every
+    later valid transmission must satisfy all relations (signature after_invalid_call|<what>|...).
+    -> True when the invalid call could be built for this configuration"""
     ui, ai, uo, ao = sut.dims()
     if not bad_call_applicable(what, sut.family, sut.mimo, sut.N, sut.ant, sut.switched):
-        return True
+        return False
     before = sut.digest()
     ch = sut.ch
 
@@ -1169,19 +1237,16 @@ def bad_call(sut, what, chk, case):
         call()
     except Exception as e:  # noqa
         raised = e
+    changed = sut.digest() != before
     chk.outcome("error_paths", (what, sut.family, sut.mimo))
-    ok = True
-    if raised is None:
-        chk.fail(("error_path", what, "no_exception"), case,
-                 observed="the invalid call returned normally", expected="an exception")
-        ok = False
-    if sut.digest() != before:
-        chk.fail(("error_path", what, "state_changed_by_failed_call"), case,
-                 observed="fading time / last response / path loss / direction / RNG state differ "
-                          "(%s)" % (("after %s" % type(raised).__name__) if raised is not None else "no exception"),
-                 expected="an invalid call leaves the channel exactly as it was")
-        ok = False
-    return ok
+    chk.outcome("invalid_call_behaviour", (what, "accepted" if raised is None else type(raised).__name__,
+                                            "state_changed" if changed else "state_unchanged"))
+    chk.count("invalid_calls_accepted" if raised is None else "invalid_calls_raised")
+    if changed:
+        chk.count("invalid_calls_that_changed_state")
+    sut.resync_after_invalid_call()
+    sut.after_invalid = what
+    return True
 
 
 def gen_digest(g):
@@ -1201,8 +1266,8 @@ def e_cases(tier):
 
 
 def check_ctor_error(case, chk):
-    """constructor / accessor error paths: the call raises the documented error and leaves the objects
-    it was given (generator, profile) exactly as they were"""
+    """constructor / accessor error paths: what happens (exception type, objects handed over changed
+    or not) is an outcome; only an exception the docstring promises is required"""
     from pyphysim.channels import fading, fading_generators as fg, multiuser, singleuser
     chk.count("eval_error_paths")
     what, w = case["what"], case["wrapper"]
@@ -1239,16 +1304,18 @@ def check_ctor_error(case, chk):
         ch = mk(channel_profile=disc, Ts=Ts)
         before = (gen_digest(gen), np.array(other.tap_delays), np.array(disc.tap_powers_dB), disc.Ts, other.Ts, raw.Ts)
         call = (lambda: ch.get_last_impulse_response(1, 0)) if w == "mu" else ch.get_last_impulse_response
+    promised = what == "padding_needs_discretized_profile"   # "If the profile is not discretized an exception is raised"
+    raised = None
     try:
         call()
-        chk.fail(("error_path", what, "no_exception"), case, expected=exc.__name__)
-    except exc:
-        pass
+    except Exception as e:  # noqa
+        raised = e
+    if promised and raised is None:
+        chk.fail(("error_path", what, "documented_exception_not_raised"), case)
     after = (gen_digest(gen), np.array(other.tap_delays), np.array(disc.tap_powers_dB), disc.Ts, other.Ts, raw.Ts)
     same = all((np.array_equal(a, b) if isinstance(a, np.ndarray) else a == b) for a, b in zip(before, after))
-    if not same:
-        chk.fail(("error_path", what, "state_changed_by_failed_call"), case,
-                 observed="the generator / profile objects handed to the failed call changed")
+    chk.outcome("invalid_call_behaviour", (what, "accepted" if raised is None else type(raised).__name__,
+                                            "state_unchanged" if same else "state_changed"))
     chk.outcome("error_paths", (what, w))
 
 
@@ -1613,8 +1680,10 @@ def fam_events(tier):
                     for k, e in enumerate(evs):
                         hist.append(dict(alpha[e]))
                         hist.append(dict(txs[k + 1]))
-                    cheap = tier != "thorough" and depth >= 2 and nerr > 0
-                    if tier != "thorough" and depth >= 2 and txs[0] is not ta:
+                    cheap = (tier != "thorough" and depth >= 2 and nerr > 0) or depth == 3
+                    if (tier != "thorough" and depth >= 2 or depth == 3) and txs[0] is not ta:
+                        continue
+                    if depth == 3 and nerr > 1:
                         continue
                     for start_sw in ((False,) if cheap else (False, True)):
                         for gen in (GENS[:1] if cheap else GENS):
@@ -1642,12 +1711,16 @@ def fam_multi(tier):
             for order in orders:
                 for gen in GENS:
                     hist = []
+                    variant = orders.index(order) % 2
+                    if variant:
+                        hist.append(dict(sw1, obj=0))            # object 0 switched from the start
                     if pl is not None:
                         hist.append(dict(spl(pl), obj=0))        # path loss on object 0 only
                     for k, (o, st) in enumerate(zip(order, steps)):
                         hist.append(dict(st, obj=o))
                         if k == 2:
-                            hist.append(dict(sw1, obj=1))        # direction switched on object 1 only
+                            # object 1: switched (variant 0) / explicitly set to the default (variant 1)
+                            hist.append(dict(sw1, obj=1, value=not variant))
                             if pl is not None:
                                 hist.append(dict(spl("v2"), obj=1))
                     for form in (("object", "discretized") if rel == "same_profile_object" else ("arrays",)):
